@@ -204,13 +204,14 @@ fn pipeline(p: &Pipes, fixed_only: bool) -> BoxedStrategy<Vec<Stage>> {
 pub fn subspec(cfg: &GenCfg) -> BoxedStrategy<SubSpec> {
     let twin = cfg.twin;
     let batched_pct = cfg.batched_pct;
-    (pipeline(&cfg.pipes, twin), 0u32..100, select(cfg.policies.clone()), any::<bool>(), 0u32..100)
-        .prop_map(move |(pipeline, b, policy, fifo, t)| SubSpec {
+    (pipeline(&cfg.pipes, twin), 0u32..100, select(cfg.policies.clone()), any::<bool>(), 0u32..100, 0u8..6)
+        .prop_map(move |(pipeline, b, policy, fifo, t, cv)| SubSpec {
             batched: b < batched_pct,
             pipeline,
             policy,
             fifo,
             twin: twin && t < 70,
+            convert: if cv < 3 { 0 } else { cv - 2 },
         })
         .boxed()
 }
@@ -272,6 +273,6 @@ pub fn case(cfg: &GenCfg) -> BoxedStrategy<VecCase> {
         vec(top(cfg), 0..=cfg.max_ops),
         0u32..100,
     )
-        .prop_map(move |(capacity, initial, p, subs, ops, d)| VecCase { capacity, initial, probe: p < probe_pct, subs, ops, final_drop: d < fd, strict: false })
+        .prop_map(move |(capacity, initial, p, subs, ops, d)| VecCase { capacity, initial, probe: p < probe_pct, subs, ops, final_drop: d < fd, strict: false, shared_waker: d % 4 == 0 })
         .boxed()
 }
